@@ -13,6 +13,7 @@ type inlineHTMLAttr struct {
 	Value    string
 	Quote    byte
 	HasValue bool
+	Raw      string // the attribute exactly as written (name, '=', quotes, value); written back when untouched
 }
 
 // ApplyInlineStylesToHTMLContent processes an HTML fragment and inlines CSS declarations
@@ -50,6 +51,18 @@ func applyInlineStylesToHTML(html string, styles map[string][]options.InlineStyl
 		}
 
 		next := html[lt+1]
+		if strings.HasPrefix(html[lt:], "<!--") {
+			// A comment ends at "-->", whatever quotes or angle brackets it contains
+			end := strings.Index(html[lt+4:], "-->")
+			if end == -1 {
+				builder.WriteString(html[lt:])
+				break
+			}
+			end += lt + 4 + 3
+			builder.WriteString(html[lt:end])
+			i = end
+			continue
+		}
 		if next == '/' || next == '!' || next == '?' {
 			end := findTagEnd(html, lt+1)
 			if end == -1 {
@@ -130,6 +143,7 @@ func inlineStylesInTag(tag string, styles map[string][]options.InlineStyle, bc *
 
 	if styleIndex >= 0 {
 		attrs[styleIndex].Value = mergeInlineStyleValues(attrs[styleIndex].Value, inlineStyle)
+		attrs[styleIndex].Raw = ""
 	} else {
 		attrs = append(attrs, inlineHTMLAttr{
 			Prefix:   " ",
@@ -146,6 +160,11 @@ func inlineStylesInTag(tag string, styles map[string][]options.InlineStyle, bc *
 	builder.WriteString(tagName)
 	for _, attr := range attrs {
 		builder.WriteString(attr.Prefix)
+		if attr.Raw != "" {
+			// untouched attributes keep their spelling (quotes, spaces around '=', no quotes at all)
+			builder.WriteString(attr.Raw)
+			continue
+		}
 		builder.WriteString(attr.Name)
 		if attr.HasValue {
 			quote := attr.Quote
@@ -248,20 +267,31 @@ func parseTag(tag string) (string, []inlineHTMLAttr, bool, string) {
 					i++
 				}
 			} else {
+				// an unquoted value ends at white space or '>' (it may contain '/', as in href=http://x/a);
+				// a '/' directly in front of the closing '>' is the self-closing mark
 				valueStart := i
-				for i < len(tag) && !isSpace(tag[i]) && tag[i] != '>' && tag[i] != '/' {
+				for i < len(tag) && !isSpace(tag[i]) && tag[i] != '>' {
+					if tag[i] == '/' && i+1 < len(tag) && tag[i+1] == '>' {
+						break
+					}
 					i++
 				}
 				value = tag[valueStart:i]
 			}
 		}
 
+		rawEnd := i
+		if !hasValue {
+			rawEnd = nameStart + len(name)
+			i = rawEnd
+		}
 		attrs = append(attrs, inlineHTMLAttr{
 			Prefix:   prefix,
 			Name:     name,
 			Value:    value,
 			Quote:    quote,
 			HasValue: hasValue,
+			Raw:      tag[nameStart:rawEnd],
 		})
 	}
 
